@@ -10,7 +10,7 @@ Extracts, on every run,
      `Rule::UNARY_X => "<name>"`, and the function name of the index arm (`new_call("get", ..)`);
  (c) the *shape* of everything else the model mirrors by hand: the pest rules expression / expression1 /
      expression2 / accessor / method / call_args / member / call / index / expression3 / container /
-     container_elements / tuple, and the parser.rs arms for expression1, method, member, call, index, container,
+     container_elements / tuple / trailing_comma / lambda_func / function_parameters / parameter, and the parser.rs arms for expression1, method, member, call, index, container,
      tuple and the driver code of the `Rule::expression` arm, are compared (whitespace-normalised) with the text
      the model was written against.
 
@@ -31,6 +31,7 @@ def die(msg):
 
 
 def norm(s):
+    s = re.sub(r"//[^\n]*", "", s)          # line comments inside an arm do not matter
     return re.sub(r"\s+", "", s)
 
 
@@ -93,11 +94,16 @@ EXPECTED_RULES = {
     "member_opt_value": ("", '"?:" ~ CNAME'),
     "call": ("", "call_args"),
     "index": ("", '"[" ~ container_elements ~ "]"'),
-    "expression3": ("_", 'STRING | RAW_STRING | FORMATTED_STRING | bool | NUMBER_ANY | container | "(" ~ expression ~ ")" '
+    "expression3": ("_", "STRING | RAW_STRING | FORMATTED_STRING | bool | NUMBER_ANY | container "
                          "| lambda_func | tuple | turbofish_cname | dyn_bind_cname | CNAME"),
     "container": ("", '"[" ~ container_elements? ~ ","? ~ "]"'),
     "container_elements": ("", 'expression ~ (","~expression)*'),
-    "tuple": ("", '"(" ~ container_elements? ~ ","? ~ ")"'),
+    "tuple": ("", '"(" ~ container_elements? ~ trailing_comma? ~ ")"'),
+    "trailing_comma": ("", '","'),
+    "lambda_func": ("", '"(" ~ function_parameters_opt ~ ")" ~ "->" ~ function_body'),
+    "function_parameters_opt": ("", "function_parameters?"),
+    "function_parameters": ("", 'parameter ~ ("," ~ parameter)*'),
+    "parameter": ("", 'CNAME ~ ":" ~ complete_type ~ default_value?'),
     "bool": ("@", '"true"|"false"'),
     "CNAME": ("@", '("_" | ASCII_ALPHA) ~ ("_" | ASCII_ALPHANUMERIC)*'),
     "WHITESPACE": ("_", '" " | "\\t" | "\\r" | "\\n"'),
@@ -260,8 +266,10 @@ EXPECTED_ARMS = {
                 )?;
                 Ok(XStaticExpr::Array(parts))''',
     "Rule::tuple": '''
-                let mut iter = input.into_inner();
-                let parts = iter.next().map_or_else(
+                let mut iter = input.into_inner().peekable();
+                let elements = iter.next_if(|p| p.as_rule() == Rule::container_elements);
+                let has_trailing_comma = iter.next().is_some();
+                let mut parts: Vec<_> = elements.map_or_else(
                     || Ok(vec![]),
                     |c| {
                         c.into_inner()
@@ -269,6 +277,9 @@ EXPECTED_ARMS = {
                             .collect()
                     },
                 )?;
+                if parts.len() == 1 && !has_trailing_comma {
+                    return Ok(parts.pop().unwrap());
+                }
                 Ok(XStaticExpr::Tuple(parts))''',
 }
 
